@@ -259,8 +259,20 @@ func c03r3(p *Program, r *Report) {
 			if v == 1 {
 				return nil, "skip"
 			}
+			// the statement kind byte written per statement decides what follows it: 0 -> query string, 1 -> prepared id
 			kind := "[byte] [long string]"
-			if !truthy(st, "len(b.preparedID) == 0") {
+			kindKnown := false
+			for _, it := range body {
+				if it.Prim == "loop" && len(it.Body) > 0 && it.Body[0].Prim == "[byte]" && it.Body[0].HasVal {
+					kindKnown = true
+					if it.Body[0].Val == 1 {
+						kind = "[byte] [short bytes]"
+					} else if it.Body[0].Val != 0 {
+						return nil, fmt.Sprintf("batch statement kind byte %d is neither 0 (query) nor 1 (prepared)", it.Body[0].Val)
+					}
+				}
+			}
+			if !kindKnown && truthy(st, "len(b.preparedID) > 0") {
 				kind = "[byte] [short bytes]"
 			}
 			val := "[bytes]"
@@ -361,7 +373,10 @@ func c03r3(p *Program, r *Report) {
 					continue
 				}
 				got := notations(body)
-				if strings.Join(got, " ") != strings.Join(want, " ") {
+				// [unset] is the [bytes] form with length -2: which of the two is written is data dependent and
+				// decided by the marshalling layer (R8), so both count as the value's [bytes]
+				unsetAsBytes := func(l []string) string { return strings.ReplaceAll(strings.Join(l, " "), "[unset]", "[bytes]") }
+				if unsetAsBytes(got) != unsetAsBytes(want) {
 					nbad++
 					if nbad <= 3 {
 						r.Bad(fi.Decl, key, fmt.Sprintf("on path [%s] the body written is `%s` but the specification's %s body for protocol v%d with these flags is `%s`", assumeStr(st), strings.Join(got, " "), strings.TrimPrefix(m.op, "op"), v, strings.Join(want, " ")))
